@@ -1,9 +1,10 @@
+\* table mutators + migrations, no plans: 27,729 distinct / 2.6M generated, ~10 s on an idle machine
 SPECIFICATION Spec
 CONSTANTS
-  Hs = {3, 4}
-  Ps = {1, 2}
+  Hs = {3}
+  Ps = {2}
   Ss = {3}
-  Phases = {0, 1}
+  Phases = {0, 1, 2}
   MaxMig = 2
   PlanH = 0
 VIEW View
